@@ -565,7 +565,7 @@ def exNetHA : Text.WNet :=
                   ⟨"u2", "BBX", none, none, [[b "z" 0]]⟩,
                   ⟨"SDN_VERILOG_ASSIGNMENT_2_0", "SDN_VERILOG_ASSIGNMENT_2", none, none, [[b "a" 0, b "a" 1], [b "v" 0, b "v" 1]]⟩,
                   ⟨"SDN_VERILOG_ASSIGNMENT_1_1", "SDN_VERILOG_ASSIGNMENT_1", none, none, [[b "w" 0], [b "z" 0]]⟩] },
-      { name := "sub", lib := "work", params := some [("DEPTH", some "4'h3"), ("MODE", some "\"fast\"")],
+      { name := "sub", lib := "work", params := some [("[3:0] DEPTH", some "4'h3"), ("MODE", some "\"fast\"")],
         attrs := some [("keep", none)],
         ports := [⟨some "p", "IN", 0, 2, [b "p" 0, b "p" 1], none⟩, ⟨some "q", "OUT", 0, 1, [b "q" 0], some [("mark", none)]⟩],
         cables := [⟨"p", 0, 2, none, none⟩, ⟨"q", 0, 1, none, none⟩, ⟨"r", 0, 1, none, none⟩],
